@@ -31,7 +31,8 @@ TECHNIQUE = "generated plans on a deterministic asyncio simulator + enumeration 
 RULE = ("plans decoded from a generated 320-byte decision tape: <=10 layer reactions (open up to 9 connections to 2 "
         "addresses incl. bursts >5 to one address, send, close, half-close, hooks, wakeups), per connect attempt "
         "delay+outcome (ok/OSError/never), read/drain/write_eof/close scripts, hook durations and kills, timeout 1-3 s, "
-        "timer overshoots, eager (Master.run) or lazy task start; for every plan ALL faults {err,hang,ceof,ceof_after} x await points reached (first 48) are "
+        "timer overshoots, eager (Master.run) or lazy task start, optional addon policy redirecting every TCP connection "
+        "to one address in server_connect; for every plan ALL faults {err,hang,ceof,ceof_after} x await points reached (first 48) are "
         "enumerated.  non-trivial = >=1 server connection and (a fault injected, or the client went away / was "
         "cancelled while a connect attempt or hook was in flight); distinct by (hook-trace shape, fault kind, label)")
 ASSUMPTIONS = ["asyncio Task/Lock/Semaphore/Event semantics are the real ones; only time and I/O are simulated",
@@ -296,6 +297,15 @@ def nontrivial(w, fault, label, ctx):
             if still >= 1 and still + later > 5:
                 ctx.cls("open+failed-connect+more-than-5-in-total-to-one-address")
                 break
+    # addon redirects connections: more than five connections with >= 2 different original addresses end up at one
+    # final address (the bound is about the address actually connected to)
+    if w.plan.get("rewrite") is not None:
+        orig = {r[3]: r[4] for r in w.trace if r[1] == "cmd" and r[2] == "open"}
+        to_final = [orig.get(c["server"]) for c in w.net.calls if c["address"] == simhandler.ADDRS[w.plan["rewrite"]]]
+        if len(to_final) > 5 and len(set(to_final)) >= 2:
+            ctx.cls("redirected:>5-connections-from-different-original-addresses-to-one-address")
+        elif any(r[1] == "rewrite" for r in w.trace):
+            ctx.cls("redirected")
     if any(_waiting_for_slot(w, i) for i in range(min(nserv, 12))) if nserv > 5 else False:
         ctx.cls("had-to-wait-for-slot")
 
